@@ -77,6 +77,10 @@ def faults(g):
     add("filter-list", "${x | h, %s}" % "a b")
     add("filter-list-after-newline", "${x |\n" + "\n" * k + " h, a b}", dline=1 + k)
     add("filter-list-multiline-expr", "${[x,\n y][0]\n" + "\n" * k + " | a b}", dline=2 + k)
+    # the list itself spans lines, and the whitespace before the "}" is longer than the list's first line
+    add("filter-list-spanning-lines", "${x | f(\n" + "     'a',\n" * k + "     a b)\n" + " " * (6 + 3 * k) + "}", dline=1 + k)
+    add("filter-list-unindented-second-line", "${x | h,\na b\n" + "\n" * (1 + k) + "  }", dline=1)
+    add("filter-list-spanning-lines-after-multiline-expr", "${(x +\n 1) | f(\n 2,\n a b)\n\n       }", dline=3)
     add("attr-expr", '<%%include file="${%s}"/>' % BAD)
     add("call-expr", '<%%call expr="f(%s)">x</%%call>' % BAD)
     add("nscall-attr", '<%%self:f a="${%s}">x</%%self:f>' % BAD)
@@ -99,6 +103,9 @@ def faults(g):
     add("invalid-control-line", "% \n", line_start=True)
     add("unsupported-keyword", "% foo x:\na\n% endfoo\n", line_start=True)
     add("duplicate-block", '<%block name="dup9">1</%block>' + "\n" * k + '<%block name="dup9">2</%block>', at=len('<%block name="dup9">1</%block>' + "\n" * k))
+    add("duplicate-block-nested", '<%block name="dup7">a' + "\n" * k + '<%block name="dup7">2</%block></%block>', at=len('<%block name="dup7">a' + "\n" * k))
+    add("duplicate-block-nested-deeper", '<%block name="dup6">\n<%block>a' + "\n" * k + '<%block name="dup6">x</%block></%block></%block>',
+        at=len('<%block name="dup6">\n<%block>a' + "\n" * k))
     add("block-def-clash", '<%def name="dup8()">1</%def><%block name="dup8">2</%block>', at=len('<%def name="dup8()">1</%def>'))
     add("named-block-in-def", '<%def name="d9()">a<%block name="nb9">x</%block></%def>', at=len('<%def name="d9()">a'))
     add("named-block-in-call", '<%call expr="f()">a<%block name="nb9">x</%block></%call>', at=len('<%call expr="f()">a'))
